@@ -29,6 +29,27 @@ CHECKS = {
          "before a subscope's Close is delivered exactly once, that a re-acquired scope is fresh and stays registered, lock order and deadlock freedom; both pre-fix "
          "deviations are shown to violate it. The real code is explored by DFS over the registry hook points and random schedules; TLC judges every trace."),
    note=CORE_NOTE, design_ref="DESIGN.md section 6 C07"),
+ "C08": dict(
+   technique="TLA+ model TallyCore.tla checked by TLC; observable traces of the real root scope (real report loop goroutine) under a controlled scheduler validated by TLC against TallyObs.tla",
+   text=("TLC checks the shutdown barrier (everything promised at the Close call delivered and flushed at its return, for every caller), quiet-after-Close, loop-ended, "
+         "reporter closed once after the final flush, on the model of ticker loop x Close (mutex, CAS, close done, wait, final pass, purge); each pre-fix deviation "
+         "(no wait, purge by any pass, no mutex, no final pass) is shown to violate it. The real code runs with its real loop goroutine whose ticks the scheduler hands out; "
+         "DFS over loop / Close / pass points and random schedules for two closers, late calls, no-interval roots; TLC judges every trace."),
+   note=CORE_NOTE, design_ref="DESIGN.md section 6 C08"),
+ "C09": dict(
+   technique="TLA+ model TallyCore.tla checked by TLC; observable traces of the real get-or-create paths under a controlled scheduler validated by TLC against TallyObs.tla",
+   text=("Model: two goroutines first-using the same subscope and counter while a pass runs; dropping the re-check under the write lock violates conservation. Real code: "
+         "DFS over probe / lock / Allocate points for each of counter, gauge, timer, histogram, child scope (plain and cached) and random mixed schedules with shard counts 1, 2, 16; "
+         "TLC checks on every trace that all handles of one identity are the same object, Allocate* happened at most once, and everything recorded was delivered."),
+   note=CORE_NOTE + " The data-race clause is outside TLA+: the thorough tier re-runs the random scenarios under the Go race detector as an observation channel.",
+   design_ref="DESIGN.md section 6 C09"),
+ "C10": dict(
+   technique="TLA+ specs TallyObs.tla (timer windows) and Instrument.tla (stopwatch, Exec) checked by TLC; traces of the real code validated by TLC",
+   text=("Timer records from two goroutines interleaved with passes, the loop and root Close under the controlled scheduler: every Record window must contain exactly one "
+         "synchronous delivery of the same identity and duration, none outside. Instrument.tla is model-checked (with three weakenings shown to be caught) and random "
+         "tick/Start/Stop/Exec histories over a harness-driven clock are replayed through its actions: Stop records exactly clock(Stop)-clock(Start), Exec runs once, one "
+         "latency, exactly the matching outcome counter, same error value."),
+   note=CORE_NOTE, design_ref="DESIGN.md section 6 C10"),
  "C03": dict(
    technique="TLA+ spec (Histogram.tla) model-checked by TLC; traces of the real histogram code validated by TLC against HistogramTrace.tla",
    text=("TLC exhaustively checks tiling, right-bucket placement, infinity/NaN placement and conservation on Histogram.tla for all bucket "
